@@ -120,6 +120,10 @@ pub struct Shared {
     pub tokens: Rc<Cell<isize>>,
     pub next_sub: Cell<usize>,
     pub weak_state: RefCell<Option<WeakState>>,
+    /// nodes leaked by bind closures through `Tm::Keep` (a bounded ring of strong handles)
+    pub kept: RefCell<std::collections::VecDeque<incremental::Incr<i64>>>,
+    /// set once the harness starts dropping its handles: nothing is retained any more
+    pub tearing_down: Cell<bool>,
 }
 
 impl Shared {
@@ -137,6 +141,8 @@ impl Shared {
             tokens: Rc::new(Cell::new(0)),
             next_sub: Cell::new(0),
             weak_state: RefCell::new(None),
+            kept: RefCell::new(Default::default()),
+            tearing_down: Cell::new(false),
         })
     }
     pub fn log(&self, e: Event) {
